@@ -97,7 +97,7 @@ async fn flaky_server(listener: tokio::net::TcpListener, seed: u64, stop: Arc<At
 }
 
 #[allow(deprecated)]
-pub async fn stress(seed: u64, total: usize, ev: &mut Evidence) -> Vec<(String, String)> {
+pub async fn stress(seed: u64, total: usize, cap: usize, ev: &mut Evidence) -> Vec<(String, String)> {
     let mut problems = vec![];
     let port = crate::net::free_port(IpAddr::V4(Ipv4Addr::LOCALHOST));
     let listener = tokio::net::TcpListener::bind(("127.0.0.1", port)).await.unwrap();
@@ -108,7 +108,7 @@ pub async fn stress(seed: u64, total: usize, ev: &mut Evidence) -> Vec<(String, 
         HostAddr::ip(IpAddr::V4(Ipv4Addr::LOCALHOST), port),
         doubling_retry_strategy(Duration::from_millis(3), Duration::from_millis(12)),
         None,
-        ClientOptions::default().max_queued_requests(16).max_response_timeouts(std::num::NonZeroUsize::new(3)),
+        ClientOptions::default().max_queued_requests(cap).max_response_timeouts(std::num::NonZeroUsize::new(3)),
     );
     let jh = tokio::spawn(task.run());
     let _ = channel.enable().await;
@@ -215,6 +215,7 @@ pub async fn stress(seed: u64, total: usize, ev: &mut Evidence) -> Vec<(String, 
         problems.push((format!("net:task_did_not_end_after_{ending}"), "client task still running 20 s after the end of the stress run".into()));
     }
     ev.count("net_requests", recs.len() as u64);
+    ev.set("net_queue_capacities", cap.to_string());
     ev.count("net_connections", conns.load(Ordering::SeqCst));
     ev.count("net_disable_enable_cycles", toggles.load(Ordering::SeqCst));
     let sd = shutdown_at.lock().unwrap().unwrap();
